@@ -458,3 +458,47 @@ func TestVerif_C11_MessageSender(t *testing.T) {
 
 var _ = io.EOF
 var _ = ma.StringCast
+
+// C10 layer 2: the remote end writes arbitrary byte streams, oversize frames,
+// nothing at all, or closes mid-frame.
+func TestVerif_C10_SenderBytes(t *testing.T) {
+	verifsim.RunCheck(t, verifsim.Check[msSc]{
+		Property: "C10", Part: "sender-bytes",
+		Rule: "rapid: 1-3 clients x 1-3 SendRequest calls against remotes that only misbehave at byte level (garbage, oversize length prefix, partial frame, silence, close, reset; on the first attempt and on the retry); " +
+			"oracle: every call returns an error (never a fabricated reply) within the read timeout per attempt, nothing blocks, plus the C11 stream invariants; non-trivial = both attempts misbehave",
+		Gen: func(t *rapid.T) msSc {
+			var sc msSc
+			nc := rapid.IntRange(1, 3).Draw(t, "nClients")
+			for c := 0; c < nc; c++ {
+				sc.Clients = append(sc.Clients, rapid.SliceOfN(rapid.Custom(func(t *rapid.T) cliOp {
+					op := cliOp{Peer: rapid.IntRange(0, 1).Draw(t, "peer"), StartMs: rapid.IntRange(0, 5000).Draw(t, "start")}
+					op.Attempts = rapid.SliceOfN(rapid.Custom(func(t *rapid.T) attempt {
+						return attempt{
+							Action:  rapid.SampledFrom([]string{"garbage", "oversize", "partial", "silent", "close", "reset", "echo"}).Draw(t, "action"),
+							DelayMs: rapid.SampledFrom([]int{0, 1, 500, 9999, 10001}).Draw(t, "delay"),
+						}
+					}), 2, 2).Draw(t, "attempts")
+					return op
+				}), 1, 3).Draw(t, "ops"))
+			}
+			return sc
+		},
+		Run: func(t *testing.T, sc msSc) verifsim.Result {
+			res := runMS(t, &sc)
+			for i := range res.Violations {
+				res.Violations[i].Signature = strings.Replace(res.Violations[i].Signature, "C11/", "C10/l2/", 1)
+			}
+			bad := false
+			for _, ops := range sc.Clients {
+				for _, op := range ops {
+					if op.Attempts[0].Action != "echo" && op.Attempts[1].Action != "echo" {
+						bad = true
+					}
+				}
+			}
+			res.NonTrivial = bad
+			res.Classes = nil
+			return res
+		},
+	})
+}
